@@ -29,6 +29,8 @@ def harness_key(variant):
     h = hashlib.sha256()
     h.update(tree_digest().encode())
     for p in sorted(glob.glob(os.path.join(HARNESS_DIR, "*"))):
+        if os.path.isdir(p):
+            continue
         h.update(p.encode())
         h.update(open(p, "rb").read())
     h.update(variant.encode())
